@@ -273,3 +273,15 @@ PROPS["C13"] = dict(
     trusted=COMMON_TRUST + ["weights are distinct dyadic-free doubles (k+1)/(n+2); comparisons exact"],
     assumptions=["RS first/second pass: specification predicates only (no executable model of the bucket structure at this commit)"],
 )
+
+PROPS["C12"] = dict(
+    module="RaptorModel.Props.C12",
+    harnesses=["h_rs"],
+    configs=rs_configs("C12", [1, 2, 3, 4, 6], [1, 2, 3, 4, 5, 6, 8, 12, 16]),
+    rule=("M-matrix-like systems (positive diagonal, non-positive dyadic off-diagonals, symmetric and non-symmetric patterns, rows with zero row sum, "
+          "decoupled vertices), thresholds {0, 1/8, 1/4, 1/2}; splittings from the library's coarsenings and random promotions of fine points; "
+          "direct / modified classical / extended (parallel truncation threshold 0); layouts incl. empty ranks; standard and node-aware. "
+          "Non-trivial = the splitting has both coarse and fine points."),
+    trusted=COMMON_TRUST + ["Float tolerance 1e-10 relative on weights; the sequential operator for the distributed comparison comes from the real sequential routine"],
+    assumptions=["extended interpolation: specification predicates and distributed = sequential only (no executable model at this commit)"],
+)
